@@ -97,3 +97,48 @@ Print Assumptions c07_dom_compat_is_no_collision.
 Print Assumptions c07_dom_many_labels.
 Print Assumptions c07_dom_gathergen.
 Print Assumptions c07_dom_c14_witness.
+
+(* ---- the same uniform theorems for histories that may contain user-written collectors (OpCustom) exposing no families: the C14
+   scenarios use them (a collector sharing a descriptor with a registered one).  [dom07c] = [dom07] with OpCustom ds [] allowed;
+   the old domain is contained in it.  Proofs/C07SpecCustom*.v *)
+Require PV.Proofs.C07SpecCustomRegs PV.Proofs.C07SpecCustom PV.Proofs.C07SpecCustomSub.
+Theorem c07_spec_of_model_custom : forall ops, C07SpecCustomRegs.dom07c ops = true ->
+  spec_c07 ops (run world0 ops) = true \/ known_mixed_kinds ops (run world0 ops) = true.
+Proof. exact C07SpecCustom.c07_spec_model_custom. Qed.
+Theorem c07_spec_of_model_strict_custom : forall ops, C07SpecCustomRegs.dom07c ops = true ->
+  mixed_kinds_registered ops (run world0 ops) = false -> spec_c07 ops (run world0 ops) = true.
+Proof. exact C07SpecCustom.c07_spec_strict_custom. Qed.
+Theorem c07_known_class_delimited_custom : forall ops, C07SpecCustomRegs.dom07c ops = true ->
+  mixed_kinds_registered ops (run world0 ops) = true -> known_mixed_kinds ops (run world0 ops) = true.
+Proof. exact C07SpecCustom.c07_known_delimited_custom. Qed.
+Theorem c07_dom_contained_in_custom_dom : forall ops, dom07 ops = true -> C07SpecCustomRegs.dom07c ops = true.
+Proof. exact C07SpecCustomSub.dom07_sub_dom07c. Qed.
+Example c07_dom_custom_gen :
+  C07SpecCustomRegs.dom07c C07SpecCustom.ex_custom_gen = true
+  /\ mixed_kinds_registered C07SpecCustom.ex_custom_gen (run world0 C07SpecCustom.ex_custom_gen) = false
+  /\ length (filter C07SpecCustom.is_fams (run world0 C07SpecCustom.ex_custom_gen)) = 7%nat
+  /\ spec_c07 C07SpecCustom.ex_custom_gen (run world0 C07SpecCustom.ex_custom_gen) = true.
+Proof. exact C07SpecCustom.ex_custom_gen_in_domain. Qed.
+Example c07_dom_custom_accepted :
+  C07SpecCustomRegs.dom07c C07SpecCustom.ex_custom_accepted = true
+  /\ mixed_kinds_registered C07SpecCustom.ex_custom_accepted (run world0 C07SpecCustom.ex_custom_accepted) = false
+  /\ nth 13 (run world0 C07SpecCustom.ex_custom_accepted) OBad = ORes (Ok tt)
+  /\ nth 14 (run world0 C07SpecCustom.ex_custom_accepted) OBad = ORes (Ok tt)
+  /\ nth 15 (run world0 C07SpecCustom.ex_custom_accepted) OBad = ORes (Err EAlreadyReg)
+  /\ nth 20 (run world0 C07SpecCustom.ex_custom_accepted) OBad = ORes (Ok tt)
+  /\ length (filter C07SpecCustom.is_fams (run world0 C07SpecCustom.ex_custom_accepted)) = 6%nat
+  /\ spec_c07 C07SpecCustom.ex_custom_accepted (run world0 C07SpecCustom.ex_custom_accepted) = true.
+Proof. exact C07SpecCustom.ex_custom_accepted_in_domain. Qed.
+Example c07_op_lang_custom :
+  C07SpecCustomStep.op_lang (OpCustom [] []) = true /\ C07SpecCustomStep.op_lang (OpCustom [] [mkMF [] [] COUNTER []]) = false.
+Proof. split; reflexivity. Qed.
+Check c07_spec_of_model_custom : forall ops, C07SpecCustomRegs.dom07c ops = true ->
+  spec_c07 ops (run world0 ops) = true \/ known_mixed_kinds ops (run world0 ops) = true.
+Check c07_spec_of_model_strict_custom : forall ops, C07SpecCustomRegs.dom07c ops = true ->
+  mixed_kinds_registered ops (run world0 ops) = false -> spec_c07 ops (run world0 ops) = true.
+Print Assumptions c07_spec_of_model_custom.
+Print Assumptions c07_spec_of_model_strict_custom.
+Print Assumptions c07_known_class_delimited_custom.
+Print Assumptions c07_dom_contained_in_custom_dom.
+Print Assumptions c07_dom_custom_gen.
+Print Assumptions c07_dom_custom_accepted.
